@@ -107,8 +107,8 @@ class BondAnnuity:
             raise FinError("Settlement date is maturity date.")
 
         self.settle_dt = settle_dt
-        bd_type = BusDayAdjustTypes.FOLLOWING
-        dg_type = DateGenRuleTypes.BACKWARD
+        bd_type = self.bd_type
+        dg_type = self.dg_type
 
         self.cpn_dts = Schedule(
             settle_dt,
